@@ -3,7 +3,7 @@
 
    Reading guide.  Times and durations are ns (Z); [mx] is cacheCtl.maximumTtl (= init_max_ttl of the configured
    seconds); a history is any list of Tick / Store / Get / Collect / Evict events run from the empty backend; the "fetch
-   instant" of the property is the entry's storedTime (time.Now() inside cacheCtl.Store, as the property's anchor
+   instant" of the property is the cp_entry's storedTime (time.Now() inside cacheCtl.Store, as the property's anchor
    says).  [EvStore s eps k (Some m) true] is a Store call at wall time s of the upstream response m under key k whose
    value packed successfully. *)
 From Mos Require Import Base.Prelude Codec.Msg Cache.CachePolicy Cache.CachePolicyProofs.
@@ -14,7 +14,7 @@ Local Open Scope Z_scope.
 (* SubtractTTL, for ALL messages and deltas: per record, OPT is untouched, every other record changes only in its TTL,
    which becomes max 1 (ttl - delta); header, questions and section lengths are unchanged. *)
 Theorem C08_subtract_ttl : forall (delta : N) (m : msg),
-  Forall2 (fun r r' => if is_opt r then r' = r else r' = set_ttl r (N.max 1 (r_ttl r - delta)))
+  Forall2 (fun r r' => if cp_is_opt r then r' = r else r' = set_ttl r (N.max 1 (r_ttl r - delta)))
           (rrs m) (rrs (subtract_ttl delta m)) /\
   m_hdr (subtract_ttl delta m) = m_hdr m /\ m_qs (subtract_ttl delta m) = m_qs m /\
   length (m_an (subtract_ttl delta m)) = length (m_an m) /\
@@ -32,7 +32,7 @@ Theorem C08_ttl_bound : forall mx clk0 evs t k st' m' s x,
   exists eps m, In (EvStore s eps k (Some m) true) evs /\ h_tc (m_hdr m) = false /\
     x = s + msg_lifetime mx m /\
     m' = subtract_ttl (elapsed_secs t s) m /\
-    Forall2 (fun r r' => if is_opt r then r' = r
+    Forall2 (fun r r' => if cp_is_opt r then r' = r
                          else r' = set_ttl r (N.max 1 (r_ttl r - elapsed_secs t s))) (rrs m) (rrs m') /\
     m_hdr m' = m_hdr m /\ m_qs m' = m_qs m /\
     (0 <= t - s < two32 * SECOND -> Z.of_N (elapsed_secs t s) = (t - s) / SECOND).
@@ -41,8 +41,8 @@ Print Assumptions C08_ttl_bound.
 
 (* one record of an aged message, spelled out *)
 Theorem C08_ttl_record : forall delta r r', rr_aged delta r r' ->
-  (is_opt r = true -> r' = r) /\
-  (is_opt r = false -> r_ttl r' = N.max 1 (r_ttl r - delta) /\ (r_ttl r' <= N.max 1 (r_ttl r - delta))%N /\ (1 <= r_ttl r')%N) /\
+  (cp_is_opt r = true -> r' = r) /\
+  (cp_is_opt r = false -> r_ttl r' = N.max 1 (r_ttl r - delta) /\ (r_ttl r' <= N.max 1 (r_ttl r - delta))%N /\ (1 <= r_ttl r')%N) /\
   r_name r' = r_name r /\ r_type r' = r_type r /\ r_class r' = r_class r /\ r_len r' = r_len r /\ r_data r' = r_data r.
 Proof. exact rr_aged_bound. Qed.
 Print Assumptions C08_ttl_record.
@@ -53,14 +53,14 @@ Print Assumptions C08_ttl_record.
 Theorem C08_min_ttl : forall m u,
   get_minimal_ttl m = (u, true) ->
   (u <= u32max)%N /\
-  (forall r, In r (rrs m) -> is_opt r = false -> (u <= r_ttl r)%N) /\
-  ((exists r, In r (rrs m) /\ is_opt r = false /\ r_ttl r = u) \/
-   (u = u32max /\ exists r, In r (rrs m) /\ is_opt r = false)).
+  (forall r, In r (rrs m) -> cp_is_opt r = false -> (u <= r_ttl r)%N) /\
+  ((exists r, In r (rrs m) /\ cp_is_opt r = false /\ r_ttl r = u) \/
+   (u = u32max /\ exists r, In r (rrs m) /\ cp_is_opt r = false)).
 Proof. exact get_minimal_ttl_some. Qed.
 Print Assumptions C08_min_ttl.
 
 Theorem C08_min_ttl_none : forall m u,
-  get_minimal_ttl m = (u, false) -> u = 0%N /\ forall r, In r (rrs m) -> is_opt r = true.
+  get_minimal_ttl m = (u, false) -> u = 0%N /\ forall r, In r (rrs m) -> cp_is_opt r = true.
 Proof. exact get_minimal_ttl_none. Qed.
 Print Assumptions C08_min_ttl_none.
 
@@ -93,8 +93,8 @@ Theorem C08_lifetime_table : forall mx m, 0 < mx ->
   (rcode = RCodeNameError -> L <= 30 * SECOND) /\
   (rcode = RCodeServerFailure -> L <= 1 * SECOND) /\
   (rcode <> RCodeSuccess -> rcode <> RCodeNameError -> rcode <> RCodeServerFailure -> L <= 5 * SECOND) /\
-  ((forall r, In r (rrs m) -> is_opt r = true) -> L <= 30 * SECOND) /\
-  (rcode = RCodeSuccess -> forall r, In r (rrs m) -> is_opt r = false -> L <= Z.max SECOND (Z.of_N (r_ttl r) * SECOND)).
+  ((forall r, In r (rrs m) -> cp_is_opt r = true) -> L <= 30 * SECOND) /\
+  (rcode = RCodeSuccess -> forall r, In r (rrs m) -> cp_is_opt r = false -> L <= Z.max SECOND (Z.of_N (r_ttl r) * SECOND)).
 Proof. exact msg_lifetime_table. Qed.
 Print Assumptions C08_lifetime_table.
 
@@ -120,7 +120,7 @@ Print Assumptions C08_max_ttl_config.
    clock (whole seconds, published by a 1 s ticker) is not ahead of the wall clock and clock + TTL does not wrap
    uint32; at every Get the clock lags the wall clock by less than [lag].  otter's ticker gives lag = 1 s (+ scheduling
    jitter) when times are counted from the ticker's phase, and < 2 s from any origin.
-   Then in EVERY history a hit at time t on an entry stored at s with lifetime L has t < s + L + lag:
+   Then in EVERY history a hit at time t on an cp_entry stored at s with lifetime L has t < s + L + lag:
    nothing is served at t >= s + L + 2 s.  (Rounding the TTL up to whole clock seconds costs nothing extra because
    otter expires at expiration <= now.) *)
 Theorem C08_expiry : forall lag mx clk0 evs t k st' m' s x,
@@ -148,7 +148,7 @@ Print Assumptions C08_expiry_lag.
 
 (* ------------------------------------------------------------------ never cached *)
 
-(* an absent (nil) or truncated response: Store returns before touching the backend, in every state *)
+(* an absent (nil) or truncated response: Store returns before touching the backend, in every cp_state *)
 Theorem C08_not_cached : forall mx st t eps k resp pk,
   cacheable resp = false -> cachectl_store mx st t eps k resp pk = (st, OSkipped).
 Proof. exact store_not_cacheable. Qed.
@@ -172,10 +172,10 @@ Theorem C08_prefetch_only_success_stores : forall u a,
 Proof. exact prefetch_store_only_success. Qed.
 Print Assumptions C08_prefetch_only_success_stores.
 
-(* ------------------------------------------------------------------ error responses never displace an entry *)
+(* ------------------------------------------------------------------ error responses never displace an cp_entry *)
 
-(* In EVERY history, at EVERY step: a Store of a response with rcode <> 0 onto a key that has an entry (live, or even
-   expired but not yet collected) leaves the whole backend state unchanged. *)
+(* In EVERY history, at EVERY cp_step: a Store of a response with rcode <> 0 onto a key that has an cp_entry (live, or even
+   expired but not yet collected) leaves the whole backend cp_state unchanged. *)
 Theorem C08_negative_nx : forall mx evs st, steps_sat neg_keeps mx st evs.
 Proof. exact negative_nx_history. Qed.
 Print Assumptions C08_negative_nx.
@@ -246,7 +246,7 @@ Example C08_example_history :
   hist_ok SECOND H6 (init_state 0) ex_hist.
 Proof. split; [vm_compute; reflexivity|]. apply hist_okb_sound. vm_compute. reflexivity. Qed.
 
-(* the clock assumption is what bounds the serving time: with a stuck clock (no Tick) the same entry is served forever *)
+(* the clock assumption is what bounds the serving time: with a stuck clock (no Tick) the same cp_entry is served forever *)
 Example C08_example_stuck_clock :
   map show (snd (run H6 (init_state 5) [EvStore (ms 5200) 1000 1 (Some ex_pos) true; EvGet (ms 999000) 1])) =
   [ [3; 3]; [6; 5200; 8200; 1; 1; 4294966302; 32768] ].
@@ -261,7 +261,7 @@ Proof. repeat split. Qed.
 (* Observation outside the property's reach in this sandbox (no redis): MemoryCache.Store called with an expireTime
    2 s or more in the PAST (only the redis-promotion path of cacheCtl.Get can do that, with clock skew between hosts)
    hands otter a negative TTL, which getTTL converts to a wrapped uint32: while otter's clock is still below the
-   overshoot (first seconds of the process) the entry is effectively immortal; later it is expired at once.
+   overshoot (first seconds of the process) the cp_entry is effectively immortal; later it is expired at once.
    Reproduced on the real MemoryCache (docs/notes/C08.md).  cacheCtl.Store itself always passes L - eps > 0. *)
 Example C08_observation_past_expiry :
   otter_expiration 0 (-3 * SECOND - 1000) = 4294967294%N /\
